@@ -4,6 +4,8 @@ import (
 	"fmt"
 	"go/types"
 	"strings"
+
+	"golang.org/x/tools/go/ssa"
 )
 
 const gfErrors = "github.com/go-faster/errors"
@@ -63,12 +65,12 @@ func (in *Interp) goValue(v Value) (interface{}, bool) {
 			}
 		}
 		// Stringer / error: call the method when available
-		if m := in.prog.LookupMethod(x.T, nil, "Error"); m != nil && in.implementsError(x.T) {
+		if m := in.findMethod(x.T, "Error"); m != nil && in.implementsError(x.T) {
 			r := in.callFn(in.cur, m, []Value{x.V}, nil)
 			s, ok := concStr(r.(StrV))
 			return errString(s), ok
 		}
-		if m := in.prog.LookupMethod(x.T, nil, "String"); m != nil && m.Signature.Params().Len() == 0 && m.Signature.Results().Len() == 1 && isString(m.Signature.Results().At(0).Type()) {
+		if m := in.findMethod(x.T, "String"); m != nil && m.Signature.Params().Len() == 0 && m.Signature.Results().Len() == 1 && isString(m.Signature.Results().At(0).Type()) {
 			r := in.callFn(in.cur, m, []Value{x.V}, nil)
 			s, ok := concStr(r.(StrV))
 			return errString(s), ok
@@ -140,16 +142,7 @@ func (in *Interp) unwrapOnce(err IfaceV) []IfaceV {
 	if err.T == nil {
 		return nil
 	}
-	m := in.prog.LookupMethod(err.T, nil, "Unwrap")
-	if m == nil {
-		// unexported lookups need the package; try method set
-		ms := in.prog.MethodSets.MethodSet(err.T)
-		for i := 0; i < ms.Len(); i++ {
-			if ms.At(i).Obj().Name() == "Unwrap" {
-				m = in.prog.MethodValue(ms.At(i))
-			}
-		}
-	}
+	m := in.findMethod(err.T, "Unwrap")
 	if m == nil {
 		return nil
 	}
@@ -188,7 +181,7 @@ func (in *Interp) errorsIs(err, target IfaceV) bool {
 				return true
 			}
 		}
-		if m := in.prog.LookupMethod(err.T, nil, "Is"); m != nil && m.Signature.Params().Len() == 1 && m.Signature.Results().Len() == 1 {
+		if m := in.findMethod(err.T, "Is"); m != nil && m.Signature.Params().Len() == 1 && m.Signature.Results().Len() == 1 {
 			if r, ok := in.callFn(in.cur, m, []Value{err.V, target}, nil).(*Term); ok && r.W == 0 {
 				if in.branch(r) {
 					return true
@@ -232,7 +225,7 @@ func (in *Interp) errorsAs(err IfaceV, target IfaceV) bool {
 			in.store(tp, tt, err.V)
 			return true
 		}
-		if m := in.prog.LookupMethod(err.T, nil, "As"); m != nil && m.Signature.Params().Len() == 1 {
+		if m := in.findMethod(err.T, "As"); m != nil && m.Signature.Params().Len() == 1 {
 			if r, ok := in.callFn(in.cur, m, []Value{err.V, target}, nil).(*Term); ok && r.W == 0 {
 				if in.branch(r) {
 					return true
@@ -262,7 +255,7 @@ func (in *Interp) errorText(err IfaceV) StrV {
 	if err.T == nil {
 		return in.strConst("<nil>")
 	}
-	m := in.prog.LookupMethod(err.T, nil, "Error")
+	m := in.findMethod(err.T, "Error")
 	if m == nil {
 		return in.strConst("<" + err.T.String() + ">")
 	}
@@ -320,7 +313,7 @@ func init() {
 		if e.T == nil {
 			return IfaceV{}
 		}
-		m := in.prog.LookupMethod(e.T, nil, "Unwrap")
+		m := in.findMethod(e.T, "Unwrap")
 		if m == nil || m.Signature.Results().Len() != 1 || !types.Identical(m.Signature.Results().At(0).Type(), errorType) {
 			return IfaceV{}
 		}
@@ -483,4 +476,14 @@ func (in *Interp) indexString(s, sub []*Term) Value {
 		r = st.Ite(m, st.Const(uint64(i), 64), r)
 	}
 	return r
+}
+
+// findMethod returns the exported method name of type t, or nil.
+func (in *Interp) findMethod(t types.Type, name string) *ssa.Function {
+	ms := in.prog.MethodSets.MethodSet(t)
+	sel := ms.Lookup(nil, name)
+	if sel == nil {
+		return nil
+	}
+	return in.prog.MethodValue(sel)
 }
